@@ -92,8 +92,14 @@ EvalOK(e, v, NS) ==
           IN /\ v.res.k = wantkind /\ ShapeOK(v.res)
              /\ CloseTo(v.res, W, NS)
              \* polynomial reproduction: the spline and all its derivatives equal the generating polynomial
-             /\ (e.poly # <<>> /\ ~e.lsq => LET p == PDerivN(e.poly, v.m) IN
-                    FClose(v.res.re, PEval(p, v.x.re), FAdd(PAbsEval(p, v.x.re), W.sre)))
+             \* (the coefficients come out of ONE linear solve, which is accurate relative to the LARGEST of them, not to
+             \*  each: where the data span orders of magnitude - a cubic over decades on a seconds axis - the small
+             \*  coefficients carry an error of 1e-16 x condition x the largest one, so the scale of this comparison also
+             \*  counts  max|c| * sum_i |D^m B_i(x)|;  collocation and evaluation above keep their local scales)
+             /\ (e.poly # <<>> /\ ~e.lsq => LET p == PDerivN(e.poly, v.m)
+                                              cmax == FMaxAbsSeq([i \in 1..Len(e.c) |-> e.c[i].re])
+                                              WM == EvalAcc(e.t, e.k, [i \in 1..Len(C) |-> Const(cmax, NS)], v.m, Const(v.x.re, NS), TRUE, 0, ZeroW(NS), NS) IN
+                    FClose(v.res.re, PEval(p, v.x.re), FAdd(FAdd(PAbsEval(p, v.x.re), W.sre), WM.sre)))
 \* ---------------------------------------------------------------- the Python-facing spline classes (spline_py.rs)
 \* PPSplineF64 / PPSplineDual / PPSplineDual2: three method families x three abscissa kinds.
 \*   ppev_single / ppdnev_single            a float abscissa only (anything else raises TypeError); result of the spline's kind
